@@ -59,6 +59,9 @@ def gen_csv_case(rnd, large=False):
     if has_w:
         layout.insert(rnd.randint(0, len(layout)), "w")
     weights = [rnd.choice([1, 1, 2, 3, 5] + ([10 ** 9, 10 ** 12 + 1, 123456789] if large else [])) for _ in rows]
+    if has_w and rnd.random() < 0.4:
+        # fractional weights (dyadic, so that their float sums are exact): 0.5, 1.75, 2.25 ...
+        weights = [rnd.choice([0.5, 0.25, 1.5, 1.75, 2.25, 3.0, 0.125]) for _ in rows]
     sel = None
     if rnd.random() < 0.55:
         sel = rnd.sample(range(ncol), rnd.randint(1, ncol))
@@ -106,7 +109,7 @@ def check_csv(ctx, case):
     for i, r in enumerate(rows):
         key = tuple(r[j] if r[j] != "" else None for j in ranks)
         e = exp.setdefault(key, [F(0), set()])
-        e[0] += case["weights"][i] if has_w else 1
+        e[0] += F(case["weights"][i]) if has_w else 1
         e[1].add("v%d" % i)
     shared = len(exp) < len(rows)
     ctx.case(case, nontrivial=shared and (sel is not None or has_id or has_w))
